@@ -226,14 +226,27 @@ func (t *BalTable) BalTableReload(gslbConfs gslb_conf.GslbConf,
 			delete(t.balTable, clusterName)
 		}
 
-		// update balance
-		if err := bal.Reload(gslbConf); err != nil {
-			log.Logger.Error("BalTableReload():err[%s] in bal.Reload() for %s",
+		bmNew[clusterName] = bal
+
+		backendConf, ok1 := (*backendConfs.Config)[clusterName]
+		if !ok1 {
+			// never comes here
+			log.Logger.Error("BalTableReload():no backend conf for %s", clusterName)
+			fails = append(fails, clusterName)
+			if err := bal.Reload(gslbConf); err != nil {
+				log.Logger.Error("BalTableReload():err[%s] in bal.Reload() for %s",
+					err.Error(), clusterName)
+			}
+			continue
+		}
+
+		// update sub clusters and their backends in one step: a request balanced
+		// meanwhile must not see the new sub clusters without backends
+		if err := bal.ReloadAll(gslbConf, backendConf); err != nil {
+			log.Logger.Error("BalTableReload():err[%s] in bal.ReloadAll() for %s",
 				err.Error(), clusterName)
 			fails = append(fails, clusterName)
 		}
-
-		bmNew[clusterName] = bal
 	}
 
 	// remove bal not in configure file
@@ -242,21 +255,6 @@ func (t *BalTable) BalTableReload(gslbConfs gslb_conf.GslbConf,
 	}
 
 	t.balTable = bmNew
-	for clusterName, bal := range t.balTable {
-		backendConf, ok1 := (*backendConfs.Config)[clusterName]
-		if !ok1 {
-			// never comes here
-			log.Logger.Error("BalTableReload():no backend conf for %s", clusterName)
-			fails = append(fails, clusterName)
-			continue
-		}
-
-		if err := bal.BackendReload(backendConf); err != nil {
-			log.Logger.Error("BalTableReload():err[%s] in bal.BackendReload() for %s",
-				err.Error(), clusterName)
-			fails = append(fails, clusterName)
-		}
-	}
 
 	// update versions
 	t.versions.ClusterTableConfVer = *backendConfs.Version
